@@ -20,6 +20,13 @@ prop("C11", "exploration",
      "Create returns within 10 virtual seconds a tube of the local parity or an error (ErrOutOfTubes). A bubble that freezes in a case with local "
      "creates (a Create spinning under the muxer lock blocks nothing durably, so no virtual bound can elapse) is decided by repeating fixture, "
      "junk, local creates (45 s each) and Stop (60 s) with real timers outside the bubble: signature ...:confirmed-in-real-time. "
+     "One case in four: AN ESTABLISHED TUBE WITH HISTORY IS UNDER ATTACK - before the junk the honest peer opens a second reliable tube, the local "
+     "application sends 5-80 frames on it (mostly more than 20, the point from which the sender counts duplicate acknowledgements) which the peer "
+     "reads and acknowledges; then the peer's acknowledgements for this tube are withheld (dropped by the fake network while the junk lasts) and "
+     "0-12 further frames are written, which stay outstanding. Spread over the drawn frames, 1-6 RUNS OF 1-8 ACKNOWLEDGEMENT FRAMES repeat the last "
+     "acknowledgement number the local sender really received (duplicates) or a neighbour (+-1, +-2), with and without payload and RTR, numbered "
+     "with the frame number the tube expects next (+0/1/5); half of the drawn frames are aimed at this tube as well. The peer owns this tube and "
+     "may ruin it: no new clause, the usual ones apply (labels history:ack>20:1-3-outstanding etc. show the coverage). "
      "Oracle: no panic, also not in a timer/sender goroutine during the 3 virtual minutes the case keeps running after Stop; the "
      "control tube moves fresh data both ways during and after the junk; Muxer.Stop returns within 10 virtual seconds; when Stop has "
      "returned no tube that is still registered or was ever handed out by Accept is open (white box: closed channel), and Accept has "
